@@ -6,7 +6,8 @@ SetParams), spec/GasPriceApa.tla (Apalache harness over the whole int64 input do
 (R) every grid edge, seeded multi-block simulations (with parameter changes) and every Apalache model
     (one per boundary class: saturation, target 0, rounding to 0, >64-bit products, clipping at the floor, ...)
     are replayed through the real auth.EndBlocker -> GasPriceKeeper.UpdateGasPrice on a real store.
-Verdict keys: C17:NoPanic:<target-zero|price-overflow|other>, C17:Up, C17:Down, C17:Floor, C17:Stay, C17:Free."""
+Verdict keys: C17:NoPanic:<target-zero|price-overflow|other>, C17:Up, C17:Down, C17:Floor, C17:Stay, C17:Free,
+C17:NoOverflow:intermediate (value differs exactly where the rule needs more than 64 bits)."""
 import json, os, shutil, subprocess, threading, time
 from concurrent.futures import ThreadPoolExecutor
 import vlib
@@ -73,7 +74,7 @@ def model_behaviour(m):
     prm = {k: str(m[k]) for k in ("maxGas", "ratio", "comp", "init")}
     init = dict(prm, act="Init", price=str(m["last"]), st=str(m["last"]))
     step = dict(prm, act="EndBlock", used=str(m["used"]), last=str(m["last"]), cls=m["cls"], lo=str(m["lo"]),
-                hi=str(m["hi"]), tz=bool(m["tz"]), sat=bool(m["sat"]), st=str(m["out"]), wcls=m.get("wcls", 0))
+                hi=str(m["hi"]), tz=bool(m["tz"]), sat=bool(m["sat"]), big=bool(m["big"]), st=str(m["out"]), wcls=m.get("wcls", 0))
     return [init, step]
 
 
@@ -96,6 +97,11 @@ def _collect(res):
 def report_mismatches(ctx):
     for key in sorted(MISMATCHES):
         n, what, case = MISMATCHES[key]
+        if key == "C17:NoOverflow:intermediate" and ctx.cov.get("drift"):
+            # the code's rule differs from the transcription everywhere, not just where 64 bits run out:
+            # a changed formula, not an overflow -> guidance only
+            ctx.add("drift", n)
+            continue
         ctx.violation(key, what, case)
     MISMATCHES.clear()
 
@@ -179,6 +185,9 @@ def _run(ctx):
     report_mismatches(ctx)
     ctx.cov.setdefault("apalache_runs", []).append({"inv": "NoWitness", "models": len(wbehs), "wall_s": w["wall"]})
     ctx.sample(wbehs[1])
+    for c in ("Up", "Down", "Floor", "Stay", "Free"):
+        if not ctx.cov.get("replayed_cls_" + c):
+            raise vlib.Inconclusive("VACUOUS", "clause %s never replayed on the real keeper" % c)
     # ---- (M) symbolic obligations over the whole int64 domain
     undecided, cex = [], []
     for k, a in done.items():
